@@ -13,20 +13,23 @@
    registration's result is the sequential verdict on the tables at its linearisation point), and from it
    [c06_conc_no_double_admission] / [c06_conc_no_disagreeing_admission].  The sequential iff-characterisation of that verdict
    in terms of descriptors (no hashes) is Props/C06.v [c06_register_iff] with its collision hypotheses.
-   FULL STATEMENT the check evaluates on every trace:  rcheck cs nth es = true -> sequential_order_exists cs (fst (qextract es))
-   (Spec/SpecC06Conc.v: the STRUCTURAL admission rule explains every result along one real-time-consistent order).  It holds
-   only up to collisions of the 64-bit hashes that decide identity in the code and in the model (descriptor ids, dimension
-   hashes, the collector id = hash of the sorted descriptor ids): under the no-collision hypotheses of Props/C06.v it follows in
-   principle from [c06_conc_lin] + [c06_register_iff] + completeness of the search, but that composition is NOT proved here.
-   Pinned instead are the two directions the check relies on: a NotFound answer of the search is exact ([c06_conc_search_exact]:
-   never a false alarm) and a Found answer is a real order ([c06_conc_search_sound]).
-   While building this check the spec refuted the unconditional statement on NATURAL collectors: collectors were filed under the
-   wrapping SUM of their descriptor ids and such sums coincide for ordinary collectors (repaired in /repo by edcf206; regression
-   pinned as [c06_conc_regression_id_sum]). *)
+   THE EXECUTABLE SPEC HOLDS OF EVERY VALIDATED TRACE ([c06_conc_spec_of_validated], proved in full, no bound on the search):
+       rcheck cs nth es = true -> in_domain_tbl cs nth es = true -> no_collision_tbl cs = true -> spec_c06conc cs es = true
+   where in_domain_tbl = the constant-label lists of the scenario's descriptors have distinct keys and every event belongs to one
+   of the nth threads, and no_collision_tbl = the executable no-collision hypothesis of the sequential part (Proofs/C06More.v:
+   ids / dimension hashes / collector ids exact on the descriptors of the table).  Proof: the ghost log orders the completed
+   calls inside their windows and replays on Model/Registry.v ([c06_conc_lin]); the spec's marker bookkeeping is the model's
+   (Proofs/RegConcExtract.v); under no collision each answer of the sequential registry is explained by the spec's structural
+   registry (Proofs/RegConcSpecSeq.v, reusing register_refines / unregister_refines / expected_is_spec_register of the
+   sequential part); such an order is an [order_exists] derivation (Proofs/RegConcOrder.v); and by exactness of the search
+   ([c06_conc_search_exact]) it then cannot answer NotFound - so neither completeness of the search nor its budget matter.
+   Without the no-collision hypothesis the statement is false (64-bit hashes decide identity); while building this check the
+   spec refuted it on NATURAL collectors: collectors were filed under the wrapping SUM of their descriptor ids and such sums
+   coincide for ordinary collectors (repaired in /repo by edcf206; regression pinned as [c06_conc_regression_id_sum]). *)
 Require Import PV.Base.Prelude.
 Require Import PV.Model.Desc PV.Model.Value PV.Model.Registry PV.Model.Conc PV.Model.RegConc.
 Require Import PV.Proofs.RegSeqFacts PV.Proofs.RegConcBase PV.Proofs.RegConcLin PV.Proofs.RegConcFacts.
-Require Import PV.Spec.SpecC06 PV.Spec.SpecC06Conc PV.Proofs.RegConcSearch.
+Require Import PV.Spec.SpecC06 PV.Spec.SpecC06Conc PV.Proofs.RegConcSearch PV.Proofs.RegConcSpecSeq PV.Proofs.RegConcSpecOf.
 From Coq Require Import Sorted.
 Open Scope nat_scope.
 
@@ -140,6 +143,34 @@ Theorem c06_conc_classifier_is_spec cs es :
   spec_c06conc cs es = negb (N.eqb (conc_classify cs es) 2) /\ conc_unknown cs es = N.eqb (conc_classify cs es) 1.
 Proof. exact (conj (conc_classify_spec cs es) (conc_classify_unknown cs es)). Qed.
 Print Assumptions c06_conc_classifier_is_spec.
+
+(* ---- the executable spec holds of every trace the validator accepts (uniform theorem of the concurrent part) ---- *)
+Theorem c06_conc_spec_of_validated cs nth es :
+  rcheck cs nth es = true -> in_domain_tbl cs nth es = true -> no_collision_tbl cs = true -> spec_c06conc cs es = true.
+Proof. exact (c06_spec_of_validated cs nth es). Qed.
+Check c06_conc_spec_of_validated.
+Print Assumptions c06_conc_spec_of_validated.
+(* one call of the sequential registry of the model is explained by the spec's structural registry, and the two stay related *)
+Theorem c06_conc_seq_step cs ct : build_ctable cs = Some ct -> consts_ok cs = true -> no_collision_tbl cs = true ->
+  forall x a o, SR ct x a -> (match o with RRegister i | RUnregister i => i < length ct | RGather => True end) ->
+  exists x', apply_call cs x {| qc_t := 0; qc_call := o; qc_ret := snd (qspec ct a o); qc_ci := 0; qc_ri := 0 |} = Some x'
+             /\ SR ct x' (fst (qspec ct a o)).
+Proof. exact (sr_step cs ct). Qed.
+Print Assumptions c06_conc_seq_step.
+(* non-vacuity: the real traces above and the tables the generator uses lie in the domain of the theorem (a table with every
+   descriptor of the generator's pool, alone and in the combinations of the fixed scenarios) *)
+Definition pool_tbl : list (list qdesc) :=
+  let x := [120]%N in let y := [121]%N in let z := [122]%N in let h := [104]%N in let hb := [104; 101; 108; 112; 32; 66]%N in let k := [107]%N in
+  [[(x, h, [], [])]; [(x, hb, [], [])]; [(x, h, [], [(k, [49]%N)])]; [(x, h, [], [(k, [50]%N)])]; [(x, hb, [], [(k, [50]%N)])];
+   [(x, hb, [], [(k, [51]%N)])]; [(y, h, [], [])]; [(y, hb, [], [(k, [49]%N)])]; [(z, h, [], [])];
+   [(y, h, [], []); (x, h, [], [])]; [(x, hb, [], [(k, [51]%N)]); (y, h, [], [])]; [(x, hb, [], [(k, [50]%N)]); (x, h, [], [])];
+   [(x, h, [], []); (y, h, [], []); (z, h, [], [])]].
+Theorem c06_conc_in_domain_examples :
+  (in_domain_tbl race_cs 2 reg_race_trace = true /\ no_collision_tbl race_cs = true)
+  /\ (in_domain_tbl sum_cs 1 sum_trace = true /\ no_collision_tbl sum_cs = true)
+  /\ (consts_ok pool_tbl = true /\ no_collision_tbl pool_tbl = true).
+Proof. vm_compute. auto. Qed.
+Print Assumptions c06_conc_in_domain_examples.
 
 (* ---- regression for the repaired defect found by this check (collectors were filed under the wrapping SUM of their descriptor
    ids, and the sums of two natural, structurally different collectors coincide; /repo commit edcf206 hashes the sorted ids
